@@ -92,11 +92,19 @@ def finish(prop, tier, seed, results, wall, write_evidence=True, verbose=False, 
         st = u["status"]
         units_summary.append({"unit": u["unit"], "status": st, "paths": u.get("paths"), "obligations": len(u["obligations"]),
                               "wall_s": round(u.get("wall_s", 0), 2)})
-        if st in ("error", "vacuous"):
-            errors.append((u["unit"], st, u["error"]))
-            continue
-        if st == "unsupported":
-            undecided.append((u["unit"], "left the verifiable subset: " + str(u["error"])))
+        if st in ("error", "vacuous", "unsupported"):
+            if st == "unsupported":
+                undecided.append((u["unit"], "left the verifiable subset: " + str(u["error"])))
+            else:
+                errors.append((u["unit"], st, u["error"]))
+            # obligations already refuted on completed paths of such a unit are still reported
+            for ob in u["obligations"]:
+                if ob["status"] == "refuted":
+                    kf = [k for k in known if k["property"] == prop and k["obligation"] == ob["name"]]
+                    if kf and not mutated:
+                        known_hits.append((kf[0], ob))
+                    else:
+                        violations.append((u, ob))
             continue
         if u.get("counts_as_function", True):
             functions.add(u["fn"])
